@@ -85,6 +85,11 @@ func (vc *VC) Generate() (err error) {
 		}
 	}
 	vc.axioms()
+	if hk, _, ok := vc.ghostKey("held"); ok {
+		// no function is entered while holding a mutex that it locks itself (that would be a self-deadlock):
+		// its own lock operations start from an empty lock set
+		vc.assert(fmt.Sprintf("(= %s ((as const (Array Int Bool)) false))", vc.st.get(hk)))
+	}
 	if vc.fc != nil {
 		for _, in := range vc.fc.Inits {
 			gd := vc.C.Ghosts[in.Ghost.Name]
